@@ -522,7 +522,7 @@ Proof.
     rewrite E; now rewrite !app_nil_r.
 Qed.
 
-Definition ok_kind (k : fkind) : bool := match k with JsonBroken => false | _ => true end.
+Definition ok_kind (k : fkind) : bool := match k with JsonBroken | TxtBroken => false | _ => true end.
 
 Lemma sem_member_allow : forall f i k, ok_kind k = true ->
   sem Allow (ser_member (S f) None i k) = Some ([in_store i k], Allow).
@@ -564,6 +564,9 @@ Proof.
     cbn [sem sem_cmd app]. rewrite ?app_nil_r. reflexivity.
   - rewrite sem_app, (sem_members_allow _ _ _ W). cbn [sem sem_cmd].
     rewrite sem_app, (sem_members_allow _ _ _ W). cbn [sem sem_cmd app]. rewrite ?app_nil_r. reflexivity.
+  - reflexivity.
+  - pose proof (writable_kind_of mem i W) as K. destruct (kind_of mem i); try discriminate;
+      cbn [sem sem_cmd]; rewrite ?Nat.eqb_refl; reflexivity.
 Qed.
 
 Lemma init_thread_at : forall sc i o,
